@@ -339,23 +339,30 @@ pub fn main() {
     let header = lines.iter().find(|c| c["id"] == 0).expect("header case (id 0) missing").clone();
     let mut env = ast::env_from_header(&header);
     env.coalesce_as_case = true;
+    let mut env_x = env.clone();
+    env_x.xstrings = true;
     let cases: Vec<Value> = lines.into_iter().filter(|c| c["id"] != 0).collect();
     let per: Vec<(Vec<Value>, Stats)> = std::thread::scope(|s| {
         let mut hs = vec![];
         for t in 0..threads {
             let cases = &cases;
-            let env = &env;
+            let env_s = &env;
+            let env_x = &env_x;
             let header = &header;
             hs.push(s.spawn(move || {
                 let tables = load_tables(header, true);
-                let variants: Vec<(&str, Tbl)> = ["view", "dict"]
-                    .iter()
-                    .map(|enc| {
-                        let (schema, batch) = ast::table_batch_enc(&header["tables"]["A"], true, enc);
+                // (table, string column, encoding) variants: the string column stored as Utf8View / dictionary
+                let mut variants: Vec<(&str, i64, &str, Tbl)> = vec![];
+                for (tn, colno) in [("A", 3i64), ("C", 1i64)] {
+                    if header["tables"].get(tn).is_none() {
+                        continue;
+                    }
+                    for enc in ["view", "dict"] {
+                        let (schema, batch) = ast::table_batch_enc(&header["tables"][tn], true, enc);
                         let dfschema = DFSchema::try_from(schema.as_ref().clone()).unwrap();
-                        (*enc, Tbl { schema, dfschema, batch })
-                    })
-                    .collect();
+                        variants.push((tn, colno, enc, Tbl { schema, dfschema, batch }));
+                    }
+                }
                 let ctx = SessionContext::new();
                 let mut st = Stats::default();
                 let mut outv = vec![];
@@ -364,6 +371,7 @@ pub fn main() {
                         continue;
                     }
                     let tbl = &tables[c["tbl"].as_str().unwrap()];
+                    let env = if c["tbl"] == "C" { env_x } else { env_s };
                     let built = catch_unwind(AssertUnwindSafe(|| {
                         ast::to_expr(&c["e"], env).and_then(|e| ctx.create_physical_expr(e, &tbl.dfschema).map_err(|e| e.to_string()))
                     }));
@@ -389,8 +397,11 @@ pub fn main() {
                         outv.push(json!({"id": c["id"], "p": c["p"], "physical": format!("{phys}"), "fails": fails}));
                     }
                     // the same case over other physical encodings of the string column (Utf8View, dictionary)
-                    if c["tbl"] == "A" && uses_col(&c["e"], 3) {
-                        for (enc, vt) in &variants {
+                    {
+                        for (tn, colno, enc, vt) in &variants {
+                            if c["tbl"] != *tn || !uses_col(&c["e"], *colno) {
+                                continue;
+                            }
                             let built = catch_unwind(AssertUnwindSafe(|| {
                                 ast::to_expr(&c["e"], env).and_then(|e| ctx.create_physical_expr(e, &vt.dfschema).map_err(|e| e.to_string()))
                             }));
